@@ -115,7 +115,9 @@ func runC02(c *Ctx) {
 		r.Guard("C02-L3", u, an.Call("raft.(*raftLog).append"), "recv.matchTerm(p0, p1) && ci != 0 && recv.committed < ci", an.GuardOpts{Min: 1})
 		r.StoreValues("C02-L3", u, an.LocalStore("ci"), []string{"recv.findConflict(p3)"}, 1)
 		r.ArgValues("C02-L3", u, an.Call("raft.(*raftLog).append"), 0, []string{"p3[(ci - (1 + p0)):]"}, 1)
-		r.Guard("C02-L3", u, an.Call("raft.(*raftLog).commitTo"), "recv.matchTerm(p0, p1)", an.GuardOpts{Min: 1})
+		// control dependence: commitTo lies in the branch taken when matchTerm held (the append in between may change the
+		// log, so the test is about the branch, not about the state at the call)
+		r.Order("C02-L3", u, an.Call("raft.(*raftLog).commitTo"), []an.M{an.Edge("recv.matchTerm(p0, p1)")}, an.OrderOpts{Min: 1})
 		r.ArgValues("C02-L3", u, an.Call("raft.(*raftLog).commitTo"), 0, []string{"raft.min(p2, r0)"}, 1)
 		r.StoreValues("C02-L3", u, an.LocalStore("lastnewi"), []string{"(p0 + uint64(len(p3)))"}, 1)
 		r.Order("C02-L3", u, an.Call("raft.(*raftLog).commitTo"), []an.M{an.LocalStore("lastnewi")}, an.OrderOpts{Min: 1})
